@@ -47,7 +47,7 @@ PROPOSED_KNOWN = [
          text="consumers of u:s/types@1.0.0 and @1.1.0: when `u:s/api@1.1.0` (which `use`s types) happens to be imported before "
               "the canonical `u:s/types@1.1.0`, the shared import is emitted as `u:s/types@1.0.0` (the lower version); with "
               "another aggregation order it is `u:s/types@1.1.0`"),
-    dict(property=PID, id="C03-merge-mutates-shared-interface", status="known", witness=W_SHARED,
+    dict(property=PID, id="C03-merge-mutates-shared-interface", status="fixed", witness=W_SHARED,
          signature="TypeAggregator::merge_interface merges in place into the aggregated interface; two imports whose kinds are the SAME "
                    "interface (by identity) share that aggregated interface, so merging one of them with a semver-compatible import "
                    "also enlarges the other",
